@@ -5,6 +5,8 @@ package model
 import (
 	"bytes"
 	"sort"
+	"strconv"
+	"strings"
 )
 
 // Cmp identifies a key comparator.
@@ -16,11 +18,39 @@ const (
 	CmpLenLex Cmp = "lenlex"
 )
 
+func rotCompare(k byte) func(a, b []byte) int {
+	return func(a, b []byte) int {
+		for i := 0; i < len(a) && i < len(b); i++ {
+			x, y := a[i]+k, b[i]+k
+			if x != y {
+				if x < y {
+					return -1
+				}
+				return 1
+			}
+		}
+		switch {
+		case len(a) < len(b):
+			return -1
+		case len(a) > len(b):
+			return 1
+		}
+		return 0
+	}
+}
+
 // Func returns the comparator function for an id.
 func (c Cmp) Func() func(a, b []byte) int {
 	switch c {
 	case CmpRev:
 		return func(a, b []byte) int { return bytes.Compare(b, a) }
+	default:
+		if strings.HasPrefix(string(c), "rot:") {
+			// rotated alphabet: bytes are compared after adding k (mod 256); one closure
+			// family, so different parameters share the same code pointer
+			k, _ := strconv.Atoi(string(c)[4:])
+			return rotCompare(byte(k))
+		}
 	case CmpLenLex:
 		return func(a, b []byte) int {
 			if len(a) != len(b) {
